@@ -763,3 +763,77 @@ Print Assumptions C05_fault_dollar_in_dollars_partial.
 Print Assumptions C05_fault_dollar_in_dollars_nested_partial.
 Print Assumptions C05_fault_opening_brace_in_groups_partial.
 Print Assumptions C05_fault_opening_brace_in_groups_math_partial.
+
+(** * Injected stray closing tokens over the EXTENDED grammar (proofs in [Proofs/Prefix2.v],
+    [Proofs/Fault2*.v])
+
+    [Doc/DocGrammar2.v]: the core grammar plus environments (with arguments, math-mode
+    bodies), specials, optional / star / single-token / verbatim arguments, verbatim macros
+    and environments.  PARTIAL: closing tokens only ([}], [\)], [\]], [\end{x}]); the side
+    conditions of the extended grammar are evaluated against the FOLLOW STRING, so the items
+    in front of the inserted token have to be well formed in front of everything that is
+    written after them (the whitespace [fws], the token and the rest [g] of the input, which
+    is otherwise ARBITRARY — in particular the rest of the document the token was inserted
+    into).  The error is the collector's error for that token ([stray_what]: 2 / 4 / 3),
+    located exactly at the token, the reader standing right after it, and it carries the
+    nodes of the items in front of it. *)
+From PLV Require Import Doc.DocGrammar2 Proofs.Prefix2.
+
+(** ** at an item boundary of the TOP-LEVEL body *)
+Theorem C05_fault_closing2_partial : forall cx l1 fws c g,
+  let ps0 := walker_state cx in
+  ok_items2 cx ps0 [] l1 (fws ++ stray_text c ++ g) = true ->
+  ws_ok fws = true -> stray_wf c ->
+  let q := (length (unparse_items2 l1) + length fws)%nat in
+  exists e,
+    parse_top (unparse_items2 l1 ++ fws ++ stray_text c ++ g) false cx ps0
+    = PErr e (q + length (stray_text c))%nat
+    /\ pe_pos e = Some q /\ pe_what e = stray_what c
+    /\ pe_nodes e = Some (gen_nodelist 0 (cs_acc (pre_flush ps0 (fst (absorb2 cx ps0 0 cs_empty l1)) fws
+                                                            (length (unparse_items2 l1))))).
+Proof. exact fault_closing2_top. Qed.
+
+(** the token appended to a whole extended document (the strict counterpart of
+    [C06_prefix_closing2_partial]): rejected at the token, with the tree of the document
+    as recovery nodes *)
+Theorem C05_fault_closing2_doc_partial : forall cx d c g,
+  ok_doc2_before cx d (stray_text c ++ g) = true -> stray_wf c ->
+  exists e,
+    parse_top (unparse2 d ++ stray_text c ++ g) false cx (walker_state cx)
+    = PErr e (length (unparse2 d) + length (stray_text c))%nat
+    /\ pe_pos e = Some (length (unparse2 d)) /\ pe_what e = stray_what c
+    /\ pe_nodes e = Some (gen_nodelist 0 (fst (tree_of2 cx (walker_state cx) 0 d))).
+Proof. exact fault_closing2_doc. Qed.
+
+(** non-vacuity: the extended document
+    [a \begin{center}b\section*[x]{y}\end{center} \sqrt{z} ] (an environment, a star, a written
+    and an absent optional argument); each of the four tokens inserted between the
+    environment and [ \sqrt{z} ] (offset 44, after one blank: 45), the rest of the document
+    being the arbitrary suffix *)
+Definition c05_doc2_l1 : list item2 :=
+  [Text2 [] [97];
+   Env2 [32] [] [99;101;110;116;101;114] []
+        [Text2 [] [98];
+         Mac2 [] [115;101;99;116;105;111;110] []
+              [Text2 [] [42]; Brk2 [] 91 93 [Text2 [] [120]] []; Grp2 [] [Text2 [] [121]] []]]
+        [] []].
+Definition c05_doc2_l2 : list item2 := [Mac2 [32] [115;113;114;116] [] [Abs2; Grp2 [] [Text2 [] [122]] []]].
+
+Example C05_fault_closing2_nonvacuous :
+  let cx := default_ctx in let ps0 := walker_state cx in
+  ok_doc2 cx {| d_items2 := c05_doc2_l1 ++ c05_doc2_l2; d_trail2 := [32] |} = true /\
+  length (unparse_items2 c05_doc2_l1) = 44%nat /\
+  forallb (fun c =>
+    let g := unparse_items2 c05_doc2_l2 ++ [32] in
+    ok_items2 cx ps0 [] c05_doc2_l1 ([32] ++ stray_text c ++ g) &&
+    match parse_top (unparse_items2 c05_doc2_l1 ++ [32] ++ stray_text c ++ g) false cx ps0 with
+    | PErr e p => Nat.eqb p (45 + length (stray_text c))%nat
+                  && match pe_pos e with Some q => Nat.eqb q 45%nat | None => false end
+                  && Nat.eqb (pe_what e) (stray_what c)
+    | _ => false
+    end)
+    [SBrace; SMClose MParen; SMClose MBracket; SEnd [122;113]] = true.
+Proof. vm_compute. repeat split. Qed.
+
+Print Assumptions C05_fault_closing2_partial.
+Print Assumptions C05_fault_closing2_doc_partial.
